@@ -88,6 +88,12 @@ Theorem C05_source_tie_visitor : forall M,
 Proof. exact cd_tie_visitor. Qed.
 Print Assumptions C05_source_tie_visitor.
 
+(* the untranslated parts (constructors: max = 1 << bits; __call__, the getattr dispatch _visit, _visit_expr) still have
+   the source text whose digest is recorded in the translator *)
+Theorem C05_source_tie_untranslated_pinned : src_pin_base = true /\ src_pin_cd = true.
+Proof. exact cd_pins. Qed.
+Print Assumptions C05_source_tie_untranslated_pinned.
+
 (* Non-vacuity: the hypotheses are met by concrete, non-trivial expressions. *)
 Definition polish : expr :=   (* n==1 ? 0 : n%10>=2 && n%10<=4 && (n%100<10 || n%100>=20) ? 1 : 2 *)
   If (Cmp CEq Var (Num 1)) (Num 0)
